@@ -139,6 +139,7 @@ type gen struct {
 	// the largest tick handed to Consume so far, the number of the case (for the oracle's report)
 	maxTick, caseNo int
 	reportedTick    bool
+	reportedMark    bool
 }
 
 type change struct {
@@ -360,6 +361,27 @@ func (g *gen) obs() {
 						fmt.Sprintf("branch %d, %s: the lines from %d on carry tick %d, the latest analysed commit has tick %d", b, fname, nd[0], t, g.maxTick))
 				}
 			}
+		}
+	}
+	// C07 "reported once, stamped with the merge commit's tick": the replay of a merge commit on a branch is silent
+	// (whatever author the stamp packs), so no record of the project or a developer's history is ever filed under the
+	// merge mark - neither as the tick of the report nor as the tick the lines were born at
+	{
+		_, gh, ph, _ := leaves.VerifBurndownState(g.brs[ids[0]])
+		check := func(who string, h map[int]map[int]int64) {
+			for c, row := range h {
+				for b, d := range row {
+					if (c == burndown.TreeMergeMark || b == burndown.TreeMergeMark) && d != 0 && !g.reportedMark {
+						g.reportedMark = true
+						hv.Fail("mark-reported", fmt.Sprintf(`{"case":%d,"people":%d,"history":%q,"tick":%d,"born":%d,"delta":%d}`, g.caseNo, g.pn, who, c, b, d),
+							fmt.Sprintf("%s history: %d line(s) reported at tick %d for birth tick %d - the merge mark itself was reported", who, d, c, b))
+					}
+				}
+			}
+		}
+		check("project", gh)
+		for a, h := range ph {
+			check(fmt.Sprintf("developer %d", a), h)
 		}
 	}
 	var parts []string
